@@ -18,6 +18,7 @@ import (
 	"os"
 	"os/exec"
 	"path/filepath"
+	"regexp"
 	"strconv"
 	"strings"
 )
@@ -28,6 +29,7 @@ type modelQ struct {
 	terms []string
 	idx   map[string]int
 	vals  []string
+	extra []string // additional assertions (blocking clauses of earlier, unconfirmed models)
 }
 
 func (q *modelQ) ask(t string) int {
@@ -62,17 +64,20 @@ func (q *modelQ) run(ob *Obligation, work string) error {
 func (q *modelQ) runWith(ob *Obligation, work string, small bool) error {
 	script := ob.script(false)
 	var b strings.Builder
-	if small {
+	{
 		i := strings.LastIndex(script, "(check-sat)")
 		b.WriteString(script[:i])
-		for _, t := range q.terms {
-			if strings.HasPrefix(t, "(s-len ") {
-				fmt.Fprintf(&b, "(assert (bvule %s #x0000000000000040))\n", t)
+		if small {
+			for _, t := range q.terms {
+				if strings.HasPrefix(t, "(s-len ") {
+					fmt.Fprintf(&b, "(assert (bvule %s #x0000000000000040))\n", t)
+				}
 			}
 		}
+		for _, x := range q.extra {
+			b.WriteString(x + "\n")
+		}
 		b.WriteString("(check-sat)\n")
-	} else {
-		b.WriteString(script)
 	}
 	// one get-value per term: a term the solver cannot evaluate does not spoil the others
 	for _, t := range q.terms {
@@ -293,7 +298,7 @@ const maxElems = 12
 
 // plan registers the model terms needed to rebuild a value of type t denoted by term s.
 func (r *rebuilder) plan(s string, t types.Type, depth int) {
-	if depth > 5 || s == "" {
+	if depth > 8 || s == "" {
 		return
 	}
 	w := r.w
@@ -366,7 +371,7 @@ func (r *rebuilder) build(s string, t types.Type, depth int) string {
 		r.stmts = append(r.stmts, fmt.Sprintf("var %s %s", v, r.typeSrc(t)))
 		return v
 	}
-	if depth > 5 {
+	if depth > 8 {
 		return zero()
 	}
 	switch u := t.Underlying().(type) {
@@ -591,13 +596,13 @@ func (r *rebuilder) buildSpecial(kind, s string, t types.Type, v string) string 
 type goTr struct {
 	pos     bool // current polarity is positive (a dropped conjunct may be replaced by true)
 	partial bool // some conjunct without executable counterpart was dropped
-	w    *World
-	pkg  *types.Package
-	vars map[string]string // contract identifier -> Go expression
-	olds []string          // statements evaluated before the call
-	n    int
-	ok   bool
-	why  string
+	w       *World
+	pkg     *types.Package
+	vars    map[string]string // contract identifier -> Go expression
+	olds    []string          // statements evaluated before the call
+	n       int
+	ok      bool
+	why     string
 }
 
 func (g *goTr) fail(why string) string {
@@ -780,7 +785,59 @@ func (g *goTr) tr(x ast.Expr, inOld bool) string {
 
 // ---- driver ----------------------------------------------------------------------------------------
 
+// tryReplay asks for a model and replays it; when the real code does not confirm it (the model took a
+// path through the CALLEES' contracts that the real callees do not take), it asks for a model that
+// differs in what the callees returned (nil-ness, error class, booleans) -- up to four models.
 func tryReplay(w *World, o *Options, ob *Obligation, base string, log *strings.Builder) (string, bool) {
+	var blocks []string
+	var path string
+	// first preference: a model in which every callee SUCCEEDS (error results nil) -- contracts are
+	// usually exact about success and loose about which error, so such a model is the most likely to
+	// be realised by the real callees
+	if e := ob.enc; e != nil {
+		var happy []string
+		for _, d := range e.decls {
+			if m := havocResultRE.FindStringSubmatch(d); m != nil && m[2] == "Iface" {
+				happy = append(happy, "(assert (= (i-tag "+m[1]+") 0))")
+			}
+		}
+		if len(happy) > 0 {
+			var hl strings.Builder
+			if p, ok, _ := tryReplayOnce(w, o, ob, base, &hl, happy); ok {
+				log.WriteString(hl.String())
+				return p, true
+			} else if p != "" {
+				path = p
+				fmt.Fprintf(log, "replay: the all-callees-succeed model was not confirmed on the real code\n")
+			}
+		}
+	}
+	for attempt := 1; attempt <= 4; attempt++ {
+		p, ok, blk := tryReplayOnce(w, o, ob, base, log, blocks)
+		if p != "" {
+			path = p
+		}
+		if ok {
+			return path, true
+		}
+		if blk == "" {
+			break
+		}
+		blocks = append(blocks, blk)
+		fmt.Fprintf(log, "replay: model %d not confirmed on the real code; asking for a model in which the callees answer differently\n", attempt)
+	}
+	return path, false
+}
+
+var havocResultRE = regexp.MustCompile(`^\(declare-const (h_[A-Za-z0-9_$]*_r_\d+) (.*)\)$`)
+
+func tryReplayOnce(w *World, o *Options, ob *Obligation, base string, log *strings.Builder, blocks []string) (string, bool, string) {
+	path, ok, blk := "", false, ""
+	path, ok = tryReplay1(w, o, ob, base, log, blocks, &blk)
+	return path, ok, blk
+}
+
+func tryReplay1(w *World, o *Options, ob *Obligation, base string, log *strings.Builder, blocks []string, blk *string) (string, bool) {
 	if ob.Kind == "ground" || ob.Kind == "bounded" || ob.Kind == "scan" {
 		return "", ob.Extra["confirmed"] == "true"
 	}
@@ -799,13 +856,43 @@ func tryReplay(w *World, o *Options, ob *Obligation, base string, log *strings.B
 		defer os.RemoveAll(work)
 	}
 
-	r := &rebuilder{w: w, q: &modelQ{}, st: e.entry, enc: e, pkg: e.pkg, byRef: map[string]string{}}
+	r := &rebuilder{w: w, q: &modelQ{extra: blocks}, st: e.entry, enc: e, pkg: e.pkg, byRef: map[string]string{}}
 	for _, p := range fn.Params {
 		r.plan("p_"+sanitize(p.Name()), p.Type(), 0)
+	}
+	// discriminators of what the callees returned in this model (for the blocking clause)
+	var disc []string
+	for _, d := range e.decls {
+		m := havocResultRE.FindStringSubmatch(d)
+		if m == nil {
+			continue
+		}
+		switch m[2] {
+		case "Bool":
+			disc = append(disc, m[1])
+		case "Iface":
+			disc = append(disc, "(= (i-tag "+m[1]+") 0)")
+		case "Slice":
+			disc = append(disc, "(= (s-arr "+m[1]+") 0)")
+		}
+	}
+	for _, t := range disc {
+		r.q.ask(t)
 	}
 	if err := r.q.run(ob, work); err != nil {
 		fmt.Fprintf(log, "replay: could not obtain model values: %v\n", err)
 		return "", false
+	}
+	{
+		var eqs []string
+		for _, t := range disc {
+			if v := r.q.val(t); v != "" {
+				eqs = append(eqs, "(= "+t+" "+v+")")
+			}
+		}
+		if len(eqs) > 0 {
+			*blk = "(assert (not (and " + strings.Join(eqs, " ") + ")))"
+		}
 	}
 	var argExprs []string
 	for _, p := range fn.Params {
